@@ -4,6 +4,9 @@ import PetgraphModel.Proofs.C11W2
 import PetgraphModel.Proofs.C11W3Floyd
 import PetgraphModel.Proofs.C11W3Fnc
 import PetgraphModel.Proofs.C11W3Spfa
+import PetgraphModel.Proofs.C11W4
+import PetgraphModel.Proofs.C11W4Complete
+import PetgraphModel.Proofs.C11W4Driver
 /-
 C11 — `bellman_ford`, `spfa`, `floyd_warshall(_path)`, `find_negative_cycle` are exact with
 negative costs.
@@ -21,7 +24,7 @@ ties to /repo by exact differential execution.
 -/
 namespace PetgraphModel.C11T
 open PetgraphModel PetgraphModel.MGraph PetgraphModel.Oracle PetgraphModel.C11J PetgraphModel.C11P
-open PetgraphModel.C11M PetgraphModel.C11MP PetgraphModel.C11W2 PetgraphModel.C11W3
+open PetgraphModel.C11M PetgraphModel.C11MP PetgraphModel.C11W2 PetgraphModel.C11W3 PetgraphModel.C11W4
 
 /-! ## Part 1 — the judges -/
 
@@ -74,7 +77,7 @@ theorem C11_judge_fnc_some_sound (g : MGraph) (s : Nat) (seq : List Nat) (bfErr 
       · simp at h
       · split at h
         · rename_i hc; exact hc
-        · split at h <;> simp at h
+        · simp at h
 
 /-- `find_negative_cycle = None` is accepted only if `bellman_ford` answers `Ok` and no negative
 cycle is reachable from the source -/
@@ -82,12 +85,16 @@ theorem C11_judge_fnc_none_sound (g : MGraph) (s : Nat) (bfErr : Bool)
     (h : judgeFnc g s none bfErr = .ok) : bfErr = false ∧ ¬ NegCycleReachable g s :=
   judgeFnc_none g s bfErr h
 
-/-- the `KNOWN D15` classification is narrow: it is given only to the answer `Some([source])` when
-`bellman_ford` errs, a negative cycle is reachable, and `[source]` is not a negative closed walk -/
-theorem C11_judge_fnc_d15_narrow (g : MGraph) (s : Nat) (ans : Option (List Nat)) (bfErr : Bool)
-    (why : String) (h : judgeFnc g s ans bfErr = .d15 why) :
-    ans = some [s] ∧ checkNegClosedWalk g [s] = false ∧ bfErr = true ∧ NegCycleReachable g s :=
-  judgeFnc_d15 g s ans bfErr why h
+/-- **no `KNOWN D15` classifier any more** (D15 is repaired in /repo): a returned sequence that is
+not a closed walk of negative cost along existing arcs is never accepted, whatever it is — the former
+special case `Some([source])` included; the only verdicts are `ok` and `fail` -/
+theorem C11_judge_fnc_rejects_non_walk (g : MGraph) (s : Nat) (seq : List Nat) (bfErr : Bool)
+    (hc : checkNegClosedWalk g seq = false) : judgeFnc g s (some seq) bfErr ≠ .ok :=
+  judgeFnc_rejects g s seq bfErr hc
+
+/-- e.g. the former D15 answer `Some([1])` on the D15 witness graph (1→0 cost 4, 0→0 cost −1; source 1) -/
+example : judgeFnc { directed := true, nodes := [0, 1], edges := [⟨0, 1, 0, 4⟩, ⟨1, 0, 0, -1⟩] } 1 (some [1]) true ≠ .ok :=
+  C11_judge_fnc_rejects_non_walk _ _ _ _ (by decide)
 
 /-- `Ok(matrix)` of `floyd_warshall` is accepted only if every entry is the exact shortest-walk
 cost, `max()` (no entry) stands exactly for the unreachable ordered pairs, and no node lies on a
@@ -594,5 +601,384 @@ theorem C11_spfa_iff_linear_bound_false_witness :
   have h20 : (2, 0, (-1 : Int)) ∈ ringView.g.arcs := by decide
   exact ⟨0, 0, 0 + -1 + -1 + -1, WalkCost.nil 0,
     WalkCost.snoc (WalkCost.snoc (WalkCost.snoc (WalkCost.nil 0) h01) h12) h20, by decide⟩
+
+/-! ## wave 4 — run-time checks of the hypotheses
+
+Every hypothesis of the Part-2 theorems that concerns the concrete case is evaluated by the driver
+(`Driver/C11.lean`) as a Boolean of `Model/C11Paths.lean` / `Model/C11Checks.lean` on every case it
+judges: `viewArcsB`, `wfB` on the `graph` line (`C11_view_check_sound`, `C11_wf_check_sound` above),
+and per request `srcB` (bf, fnc, spfa), `nbB` and `fitSpfaB` (spfa), `fitFloydB` (fw, fwp), `fitBfB`
+(bf, fnc: `f64` used as an integer type), with `M = maxOutLen v` and `Wm = maxAbsW v.g` computed
+from the case.  The theorems of this section turn each `… = true` into the hypothesis it stands for;
+the `…_checked` theorems restate the model theorems with Boolean hypotheses only, so every judged
+case is provably inside their scope. -/
+
+/-- `srcB`: the source is a node of the graph -/
+theorem C11_src_check (v : View) (s : Nat) (h : srcB v s = true) : s ∈ v.g.nodes := srcB_sound h
+
+/-- `nbB`: `node_count() ≤ node_bound()` -/
+theorem C11_nb_check (v : View) (h : nbB v = true) : v.g.nodes.length ≤ v.nb := nbB_sound h
+
+/-- the computed `M = maxOutLen v` bounds the length of every out-list (hypothesis `hM` of
+`C11_spfa_iff`; holds by construction, nothing to check) -/
+theorem C11_outlen_check (v : View) : ∀ a, (v.outOf a).length ≤ maxOutLen v := outOf_length_le v
+
+/-- the computed `Wm = maxAbsW g` is non-negative and bounds the magnitude of every cost
+(hypotheses `hWm`, `hW` of the floyd / spfa theorems; by construction) -/
+theorem C11_cost_bound_check (g : MGraph) :
+    (0 : Int) ≤ ((maxAbsW g : Nat) : Int) ∧
+    ∀ e ∈ g.edges, -((maxAbsW g : Nat) : Int) ≤ e.w ∧ e.w ≤ ((maxAbsW g : Nat) : Int) :=
+  ⟨Int.natCast_nonneg _, cost_bound g⟩
+
+/-- `fitFloydB`: the linear width hypothesis of `C11_floyd_ok_linear` / `C11_floyd_err_iff_linear`
+for `Wm = maxAbsW` -/
+theorem C11_floyd_fit_check (B : Meas) (v : View) (h : fitFloydB B v = true) :
+    2 * ((v.g.nodes.length : Int) * ((maxAbsW v.g : Nat) : Int)) < B.max ∧
+    B.min ≤ -(2 * ((v.g.nodes.length : Int) * ((maxAbsW v.g : Nat) : Int))) :=
+  fitFloydB_sound h
+
+/-- `fitSpfaB`: the width hypothesis of `C11_spfa_iff` for `M = maxOutLen`, `Wm = maxAbsW` -/
+theorem C11_spfa_fit_check (B : Meas) (v : View) (h : fitSpfaB B v = true) :
+    ((v.g.nodes.length * v.nb * maxOutLen v + v.g.nodes.length : Nat) : Int) * ((maxAbsW v.g : Nat) : Int) < B.max ∧
+    B.min ≤ -(((v.g.nodes.length * v.nb * maxOutLen v + v.g.nodes.length : Nat) : Int) * ((maxAbsW v.g : Nat) : Int)) :=
+  fitSpfaB_sound h
+
+set_option exponentiation.threshold 1100 in
+/-- a check passed for the range `±2^53` of exactly represented integers also holds for `f64` itself
+(the driver evaluates the `f64` requests against both) -/
+theorem C11_fit_exact_f64_check (L Wm : Nat) (h : fitsB Meas.exactF64 L Wm = true) : fitsB Meas.f64 L Wm = true :=
+  fitsB_mono (by decide) (by decide) h
+
+/-- **bellman_ford, all clauses, Boolean hypotheses only** (`graph`-line checks + `srcB`): `Err`
+exactly when a negative cycle is reachable from the source; otherwise every finite distance is the
+exact shortest-walk cost and the predecessor entries lead from the source to the node along arcs at
+exactly that cost (shortest-path tree), a node has no distance iff it is unreachable, and a node has
+no predecessor iff it is the source or unreachable. -/
+theorem C11_bellman_ford_checked (v : View) (s : Nat)
+    (hv : viewArcsB v = true) (hwf : wfB v.g = true) (hs : srcB v s = true) :
+    (bellmanFord v s = none ↔ NegCycleReachable v.g s) ∧
+    ∀ st, bellmanFord v s = some st →
+      (∀ x y, tget st.d x = some y → IsShortest v.g s x y ∧ TreeWalk v.g (tget st.p) s x y) ∧
+      (∀ x, tget st.d x = none ↔ ¬ ∃ c, WalkCost v.g s x c) ∧
+      (∀ x, tget st.p x = none ↔ (x = s ∨ ¬ ∃ c, WalkCost v.g s x c)) := by
+  have hv' := viewArcsB_sound v hv
+  refine ⟨C11_bellman_ford_err_iff v hv' (wfB_sound _ hwf) s (srcB_sound hs), fun st h => ?_⟩
+  obtain ⟨h1, h2, _, h4, _⟩ := bellmanFord_ok v hv' s st h
+  refine ⟨fun x y hx => ⟨h1 x y hx, bellmanFord_tree v hv' s st h x y hx⟩, h2, fun x => ?_⟩
+  rw [h4 x, h2 x]
+
+/-- **find_negative_cycle, all clauses, Boolean hypotheses only**: `None` exactly when
+`bellman_ford` answers `Ok`, exactly when no negative cycle is reachable; a returned sequence is a
+closed walk along existing arcs of negative total cost; the predecessor walk ends within its fuel. -/
+theorem C11_find_negative_cycle_checked (v : View) (s : Nat)
+    (hv : viewArcsB v = true) (hwf : wfB v.g = true) (hs : srcB v s = true) :
+    (findNegativeCycle v s = .none ↔ (bellmanFord v s).isSome = true) ∧
+    (findNegativeCycle v s = .none ↔ ¬ NegCycleReachable v.g s) ∧
+    findNegativeCycle v s ≠ .fuel ∧
+    ∀ seq, findNegativeCycle v s = .some seq →
+      checkNegClosedWalk v.g seq = true ∧ ∃ c, c < 0 ∧ ClosedWalkCost v.g seq c := by
+  have hv' := viewArcsB_sound v hv
+  have hwf' := wfB_sound _ hwf
+  refine ⟨fnc_none_iff v s, ?_, findNegativeCycle_fuel v hv' hwf' s,
+    fun seq h => C11_find_negative_cycle_closed_walk v hv' hwf' s seq h⟩
+  have := C11_find_negative_cycle_some_iff v hv' hwf' s (srcB_sound hs)
+  constructor
+  · intro h hneg; exact (this.2 hneg) h
+  · intro hno
+    cases hf : findNegativeCycle v s with
+    | none => rfl
+    | some seq => exact absurd (this.1 (by rw [hf]; simp)) hno
+    | fuel => exact absurd (this.1 (by rw [hf]; simp)) hno
+
+/-- **spfa, `Ok` half from the INPUT-side bound** (wave 3 had `C11_spfa_ok` / `C11_spfa_tree` from a
+condition on the result): under the hypotheses of `C11_spfa_iff`, an `Ok` result holds the exact
+shortest-walk costs, no entry exactly for the unreachable nodes, and predecessors that form a
+shortest-path tree (none exactly for the source and the unreachable nodes). -/
+theorem C11_spfa_ok_input_bound (B : Meas) (v : View) (hv : ViewArcs v) (hwf : v.g.WellFormed) (s : Nat)
+    (hs : s ∈ v.g.nodes) (M : Nat) (hM : ∀ a, (v.outOf a).length ≤ M)
+    (Wm : Int) (hWm : 0 ≤ Wm) (hW : ∀ e ∈ v.g.edges, -Wm ≤ e.w ∧ e.w ≤ Wm)
+    (hfit : ((v.g.nodes.length * v.nb * M + v.g.nodes.length : Nat) : Int) * Wm < B.max ∧
+      B.min ≤ -(((v.g.nodes.length * v.nb * M + v.g.nodes.length : Nat) : Int) * Wm))
+    (st : SP) (h : spfa B v s = some (some st)) :
+    (∀ x y, tget st.d x = some y → IsShortest v.g s x y ∧ y < B.max ∧ TreeWalk v.g (tget st.p) s x y) ∧
+    (∀ x, tget st.d x = none ↔ ¬ ∃ c, WalkCost v.g s x c) ∧
+    ¬ NegCycleReachable v.g s ∧
+    (∀ x, tget st.p x = none ↔ (x = s ∨ ¬ ∃ c, WalkCost v.g s x c)) := by
+  have hL : 0 ≤ (spfaLen v M : Int) * Wm := Int.mul_nonneg (Int.natCast_nonneg _) hWm
+  have hB : 0 < B.max := by have := hfit.1; unfold spfaLen at hL; omega
+  have hres := spfa_result_fits B v hv hwf s hs M hM Wm hWm hW hfit st h
+  obtain ⟨h1, h2, h3, h4, _⟩ := spfa_ok B hB v hv s st h hres
+  refine ⟨fun x y hx => ⟨(h1 x y hx).1, (h1 x y hx).2, spfa_tree B hB v hv s st h hres x y hx⟩, h2, h3, fun x => ?_⟩
+  rw [h4 x, h2 x]
+
+/-- **spfa, all clauses, Boolean hypotheses only** (`graph`-line checks + `srcB`, `nbB`,
+`fitSpfaB`): the work-list loop ends within its fuel, the answer is `Err` exactly when a negative
+cycle is reachable from the source, and an `Ok` result is exact with a shortest-path tree. -/
+theorem C11_spfa_checked (B : Meas) (v : View) (s : Nat)
+    (hv : viewArcsB v = true) (hwf : wfB v.g = true) (hs : srcB v s = true) (hnb : nbB v = true)
+    (hfit : fitSpfaB B v = true) :
+    spfa B v s ≠ none ∧
+    (spfa B v s = some none ↔ NegCycleReachable v.g s) ∧
+    ∀ st, spfa B v s = some (some st) →
+      (∀ x y, tget st.d x = some y → IsShortest v.g s x y ∧ y < B.max ∧ TreeWalk v.g (tget st.p) s x y) ∧
+      (∀ x, tget st.d x = none ↔ ¬ ∃ c, WalkCost v.g s x c) ∧
+      (∀ x, tget st.p x = none ↔ (x = s ∨ ¬ ∃ c, WalkCost v.g s x c)) := by
+  have hv' := viewArcsB_sound v hv
+  have hwf' := wfB_sound _ hwf
+  have hs' := srcB_sound hs
+  obtain ⟨hWm, hW⟩ := C11_cost_bound_check v.g
+  refine ⟨spfa_fuel B v hv' hwf' s hs',
+    C11_spfa_iff B v hv' hwf' s hs' (nbB_sound hnb) _ (outOf_length_le v) _ hWm hW (fitSpfaB_sound hfit),
+    fun st h => ?_⟩
+  obtain ⟨h1, h2, _, h4⟩ := C11_spfa_ok_input_bound B v hv' hwf' s hs' _ (outOf_length_le v) _ hWm hW
+    (fitSpfaB_sound hfit) st h
+  exact ⟨h1, h2, h4⟩
+
+/-- **floyd_warshall / floyd_warshall_path, all clauses, Boolean hypotheses only** (`wfB` +
+`fitFloydB`): `Err` exactly when the graph contains a negative cycle; an `Ok` result has, for every
+row, exact entries, `max()` exactly for the unreachable pairs, and `prev` entries that spell out
+shortest paths. -/
+theorem C11_floyd_checked (B : Meas) (v : View) (hwf : wfB v.g = true) (hfit : fitFloydB B v = true) :
+    (floydWarshall B v = none ↔ NegCycle v.g) ∧
+    ∀ st, floydWarshall B v = some st →
+      ∀ i ∈ v.g.nodes,
+        (∀ j y, tget st.d (i, j) = some y → IsShortest v.g i j y) ∧
+        (∀ j, tget st.d (i, j) = none ↔ ¬ ∃ c, WalkCost v.g i j c) ∧
+        (∀ j y, tget st.d (i, j) = some y →
+          TreeWalk v.g (fun x => if x == i then none else tget st.p (i, x)) i j y) ∧
+        (∀ j, j ≠ i →
+          (tget st.p (i, j) = none ↔ ¬ ∃ c, WalkCost v.g i j c) ∧
+          (∀ q, tget st.p (i, j) = some q →
+            ∃ a w, IsShortest v.g i q a ∧ tget st.d (i, q) = some a ∧ (q, j, w) ∈ v.g.arcs ∧
+              tget st.d (i, j) = some (a + w) ∧ IsShortest v.g i j (a + w))) := by
+  have hwf' := wfB_sound _ hwf
+  obtain ⟨hWm, hW⟩ := C11_cost_bound_check v.g
+  exact ⟨C11_floyd_err_iff_linear B v hwf' _ hWm hW (fitFloydB_sound hfit),
+    fun st h => (C11_floyd_ok_linear B v hwf' _ hWm hW (fitFloydB_sound hfit) st h).2⟩
+
+/-- the Boolean hypotheses are satisfiable (and hold with a wide margin for the cases the harness
+generates): the `okView` above, all three cost types -/
+example : viewArcsB okView = true ∧ wfB okView.g = true ∧ srcB okView 0 = true ∧ nbB okView = true ∧
+    fitSpfaB Meas.i32 okView = true ∧ fitSpfaB Meas.i64 okView = true ∧ fitSpfaB Meas.exactF64 okView = true ∧
+    fitFloydB Meas.i32 okView = true ∧ fitBfB okView = true ∧ maxOutLen okView = 2 ∧ maxAbsW okView.g = 3 := by
+  decide
+
+/-- … and each of them can fail: a source outside the graph, `node_bound` below the node count, costs
+too large for `i32` -/
+example : srcB okView 7 = false ∧ nbB { okView with nb := 3 } = false ∧
+    fitSpfaB Meas.i32 { okView with g := { okView.g with edges := [⟨0, 0, 1, 2⟩, ⟨1, 1, 2, -100000000⟩] } } = false ∧
+    fitFloydB Meas.i32 { okView with g := { okView.g with edges := [⟨0, 0, 1, 2⟩, ⟨1, 1, 2, -300000000⟩] } } = false := by
+  decide
+
+/-! ### `f64` used as an integer type
+
+The models compute with `Int`; the real code computes with `f64` for `bellman_ford` /
+`find_negative_cycle` (FloatMeasure) and for the `f64` instances of `spfa` / `floyd_warshall`.
+Integers of magnitude at most `2^53` are represented exactly and their `f64` sum is exact when it
+stays in that range.  The driver checks `fitBfB` / `fitSpfaB Meas.exactF64` / `fitFloydB Meas.exactF64`
+for those requests; the theorems below show that then every label the model stores and every
+candidate sum `d[a] + w` it compares lies strictly inside `±2^53` — so the real `f64` computation is
+the model's integer computation. -/
+
+/-- `bellman_ford` / `find_negative_cycle` (both run `bellman_ford_initialize_relax`): labels and
+candidate sums of the relaxation phase, whether the answer is `Ok` or `Err` -/
+theorem C11_bellman_ford_values_exact_range (v : View) (s : Nat)
+    (hv : viewArcsB v = true) (hfit : fitBfB v = true) :
+    (∀ x y, tget (bfRelax v s).d x = some y → -(2^53 : Int) < y ∧ y < 2^53) ∧
+    (∀ a b w, (a, b, w) ∈ v.g.arcs → ∀ x, tget (bfRelax v s).d a = some x → -(2^53 : Int) < x + w ∧ x + w < 2^53) := by
+  have hv' := viewArcsB_sound v hv
+  obtain ⟨hWm, hW⟩ := C11_cost_bound_check v.g
+  obtain ⟨h1, h2⟩ := bfRelax_bound v hv' s _ (outOf_length_le v) _ hWm hW
+  have hf := fitsB_sound hfit
+  simp only [bfLenC, Meas.exactF64] at hf
+  have hmono : ((((v.g.nodes.length - 1) * (v.g.nodes.length * maxOutLen v) : Nat) : Int)) * ((maxAbsW v.g : Nat) : Int)
+      ≤ ((((v.g.nodes.length - 1) * (v.g.nodes.length * maxOutLen v) + 1 : Nat) : Int)) * ((maxAbsW v.g : Nat) : Int) :=
+    Int.mul_le_mul_of_nonneg_right (by omega) hWm
+  constructor
+  · intro x y hx
+    have := h1 x y hx
+    omega
+  · intro a b w harc x hx
+    have := h2 a b w harc x hx
+    omega
+
+/-- the distances `bellman_ford` returns are those labels (`Ok(paths)` carries `bfRelax`'s tables) -/
+theorem C11_bellman_ford_result_is_relax (v : View) (s : Nat) (st : BF) (h : bellmanFord v s = some st) :
+    st = bfRelax v s := by
+  unfold bellmanFord at h
+  simp only at h
+  split at h
+  · cases h; rfl
+  · cases h
+
+/-- `spfa::<f64>`: labels and candidate sums of an `Ok` result -/
+theorem C11_spfa_values_exact_range (B : Meas) (hB : 0 < B.max) (v : View) (s : Nat)
+    (hv : viewArcsB v = true) (hwf : wfB v.g = true) (hs : srcB v s = true)
+    (hfit : fitSpfaB Meas.exactF64 v = true) (st : SP) (h : spfa B v s = some (some st)) :
+    (∀ x y, tget st.d x = some y → -(2^53 : Int) < y ∧ y < 2^53) ∧
+    (∀ a b w, (a, b, w) ∈ v.g.arcs → ∀ x, tget st.d a = some x → -(2^53 : Int) < x + w ∧ x + w < 2^53) := by
+  have hv' := viewArcsB_sound v hv
+  have hwf' := wfB_sound _ hwf
+  have hs' := srcB_sound hs
+  obtain ⟨hWm, hW⟩ := C11_cost_bound_check v.g
+  have hf := fitSpfaB_sound hfit
+  simp only [Meas.exactF64] at hf
+  have h1 := spfa_label_bound B hB v hv' hwf' s hs' _ (outOf_length_le v) _ hWm hW st h
+  have h2 := spfa_sum_bound B hB v hv' hwf' s hs' _ (outOf_length_le v) _ hWm hW st h
+  have hmono : (((v.g.nodes.length * v.nb * maxOutLen v : Nat) : Int)) * ((maxAbsW v.g : Nat) : Int)
+      ≤ (((v.g.nodes.length * v.nb * maxOutLen v + v.g.nodes.length : Nat) : Int)) * ((maxAbsW v.g : Nat) : Int) :=
+    Int.mul_le_mul_of_nonneg_right (by omega) hWm
+  constructor
+  · intro x y hx
+    have := h1 x y hx
+    omega
+  · intro a b w harc x hx
+    have := h2 a b w harc x hx
+    unfold spfaLen at this
+    omega
+
+/-- `floyd_warshall::<f64>`: entries of an `Ok` result (sums of two entries stay below `2·|V|·Wm`) -/
+theorem C11_floyd_values_exact_range (B : Meas) (v : View) (hwf : wfB v.g = true)
+    (hfitB : fitFloydB B v = true) (hfit : fitFloydB Meas.exactF64 v = true)
+    (st : FW) (h : floydWarshall B v = some st) :
+    ∀ i j y, tget st.d (i, j) = some y → -(2^52 : Int) < y ∧ y < 2^52 := by
+  have hwf' := wfB_sound _ hwf
+  obtain ⟨hWm, hW⟩ := C11_cost_bound_check v.g
+  have hb := floyd_entry_bound B v hwf' _ hWm hW (fitFloydB_sound hfitB) st h
+  have hf := fitFloydB_sound hfit
+  simp only [Meas.exactF64] at hf
+  have hmono : (((v.g.nodes.length - 1 : Nat) : Int)) * ((maxAbsW v.g : Nat) : Int)
+      ≤ ((v.g.nodes.length : Nat) : Int) * ((maxAbsW v.g : Nat) : Int) :=
+    Int.mul_le_mul_of_nonneg_right (by omega) hWm
+  intro i j y hy
+  have := hb i j y hy
+  omega
+
+/-! ### the driver judges only inside that scope
+
+`Proofs/C11W4Driver.lean`: the flag `ok` of the driver state is set only by a `graph` line whose
+checks passed (`DInv`, an invariant of `Driver/C11.lean`'s `step` over every sequence of lines); a
+request whose pre-check answers `some why` gets exactly that `SPECFAIL` verdict, and a request whose
+pre-check answers `none` satisfies all Boolean hypotheses of the `…_checked` theorems. -/
+
+/-- after any sequence of protocol lines the driver's `ok` flag implies the `graph`-line checks for
+the view it holds -/
+theorem C11_driver_invariant (lines : List (List String × String)) : C11W4D.DInv (C11W4D.run lines) :=
+  C11W4D.run_inv lines
+
+/-- `bf` / `fnc` requests that are judged at all lie in the scope of `C11_bellman_ford_checked`,
+`C11_find_negative_cycle_checked`, `C11_bellman_ford_values_exact_range` -/
+theorem C11_driver_float_scope (lines : List (List String × String)) (s : Nat)
+    (h : C11.preFloat (C11W4D.run lines) s = none) :
+    viewArcsB (C11W4D.run lines).v = true ∧ wfB (C11W4D.run lines).v.g = true ∧
+    srcB (C11W4D.run lines).v s = true ∧ fitBfB (C11W4D.run lines).v = true :=
+  C11W4D.preFloat_scope (C11W4D.run_inv lines) h
+
+/-- `spfa <ty>` requests that are judged at all lie in the scope of `C11_spfa_checked` for the
+model's cost type `measOf ty`, and of `C11_spfa_values_exact_range` when `ty = f64` -/
+theorem C11_driver_spfa_scope (lines : List (List String × String)) (ty : String) (s : Nat)
+    (h : C11.preSpfa (C11W4D.run lines) ty s = none) :
+    viewArcsB (C11W4D.run lines).v = true ∧ wfB (C11W4D.run lines).v.g = true ∧
+    srcB (C11W4D.run lines).v s = true ∧ nbB (C11W4D.run lines).v = true ∧
+    fitSpfaB (C11.measOf ty) (C11W4D.run lines).v = true ∧
+    (ty = "f64" → fitSpfaB Meas.exactF64 (C11W4D.run lines).v = true) := by
+  obtain ⟨h1, h2, h3, h4, h5, h6⟩ := C11W4D.preSpfa_scope (C11W4D.run_inv lines) h
+  exact ⟨h1, h2, h3, h4, h5, fun hty => by subst hty; rw [C11W4D.rangeOf_f64] at h6; exact h6⟩
+
+/-- `fw` / `fwp` requests that are judged at all lie in the scope of `C11_floyd_checked` -/
+theorem C11_driver_floyd_scope (lines : List (List String × String)) (ty : String)
+    (h : C11.preFw (C11W4D.run lines) ty = none) :
+    wfB (C11W4D.run lines).v.g = true ∧ fitFloydB (C11.measOf ty) (C11W4D.run lines).v = true ∧
+    (ty = "f64" → fitFloydB Meas.exactF64 (C11W4D.run lines).v = true) := by
+  obtain ⟨h1, h2, h3⟩ := C11W4D.preFw_scope (C11W4D.run_inv lines) h
+  exact ⟨h1, h2, fun hty => by subst hty; rw [C11W4D.rangeOf_f64] at h3; exact h3⟩
+
+/-- outside the scope nothing is judged: the failed pre-check is the verdict -/
+theorem C11_driver_blocked (d : C11.DState) (ty s impl why : String) :
+    (C11.preFloat d (s.toNat?.getD 0) = some why →
+      (C11.step d ["bf", s] impl).2 = why ∧ (C11.step d ["fnc", s] impl).2 = why) ∧
+    (C11.preSpfa d ty (s.toNat?.getD 0) = some why → (C11.step d ["spfa", ty, s] impl).2 = why) ∧
+    (C11.preFw d ty = some why → (C11.step d ["fw", ty] impl).2 = why ∧ (C11.step d ["fwp", ty] impl).2 = why) :=
+  ⟨fun h => ⟨C11W4D.step_bf_blocked d s impl why h, C11W4D.step_fnc_blocked d s impl why h⟩,
+   C11W4D.step_spfa_blocked d ty s impl why, C11W4D.step_fw_blocked d ty impl why⟩
+
+set_option exponentiation.threshold 1100 in
+set_option maxRecDepth 20000 in
+/-- non-vacuity: on `okView` every pre-check passes (the requests are judged), and each can block -/
+example : C11.preFloat { v := okView, ok := true } 0 = none ∧
+    C11.preSpfa { v := okView, ok := true } "i32" 0 = none ∧ C11.preSpfa { v := okView, ok := true } "f64" 2 = none ∧
+    C11.preFw { v := okView, ok := true } "i64" = none ∧
+    (C11.preFloat { v := okView, ok := false } 0).isSome = true ∧
+    (C11.preSpfa { v := okView, ok := true } "i32" 9).isSome = true := by
+  decide
+
+/-! ## wave 4 — completeness of the judges
+
+Wave 1 proved the judges sound.  `Proofs/C11W4Complete.lean` proves them complete wherever the
+reference search is not needed, and the reference search complete on the side without a negative
+cycle: `judgeOk` / `judgeFwOk` DECIDE the `Ok` clauses (they never answer "inconclusive" and accept
+every right answer); `judgeErr` / `judgeFnc` / `judgeFwErr` answer "judge inconclusive" only if a
+negative cycle IS reachable (resp. present) and the untrusted reference search failed to exhibit one —
+in which case an `Err`/`Some` answer would have been right; the driver reports this as SPECFAIL, so
+every occurrence is visible as a spec failure (none in any run). -/
+
+/-- the certificate checker accepts exactly the exact labellings: no node listed twice, no negative
+cycle reachable, every label the exact shortest-walk cost, every reachable node labelled -/
+theorem C11_checkDist_iff (g : MGraph) (s : Nat) (d : List (Nat × Int)) :
+    checkDist g s d = true ↔
+      ((d.map (·.1)).Nodup ∧ ¬ NegCycleReachable g s ∧
+       (∀ x y, labelOf d x = some y → IsShortest g s x y) ∧
+       (∀ x, (∃ c, WalkCost g s x c) → ∃ y, labelOf d x = some y)) :=
+  C11W4C.checkDist_iff g s d
+
+/-- **`judgeOk` decides the `Ok` clause of bellman_ford / spfa**: it accepts exactly the answers that
+list no node twice and satisfy the five conclusions of `C11_judge_ok_sound` (`OkSpec`) -/
+theorem C11_judge_ok_iff (g : MGraph) (hwf : g.WellFormed) (s : Nat) (hs : s ∈ g.nodes)
+    (d : List (Nat × Int)) (pred : Nat → Option Nat) :
+    judgeOk g s d pred = none ↔ ((d.map (·.1)).Nodup ∧ OkSpec g s d pred) :=
+  C11W4C.judgeOk_iff g hwf s hs d pred
+
+/-- **`judgeFwOk` decides the `Ok` clause of floyd_warshall** (`FwSpec` = the three conclusions of
+`C11_judge_floyd_ok_sound`) -/
+theorem C11_judge_floyd_ok_iff (g : MGraph) (hwf : g.WellFormed) (entry : Nat → Nat → Option Int) :
+    judgeFwOk g entry = none ↔ FwSpec g entry :=
+  C11W4C.judgeFwOk_iff g hwf entry
+
+/-- **without a reachable negative cycle the judges are conclusive**: the reference search converges,
+its labelling passes `checkDist`, so `Err` is rejected with the definite reason, `find_negative_cycle
+= None` (with `bellman_ford = Ok`) is accepted and `Some(_)` rejected with the definite reason -/
+theorem C11_judge_conclusive_without_neg_cycle (g : MGraph) (hwf : g.WellFormed) (s : Nat) (hs : s ∈ g.nodes)
+    (hno : ¬ NegCycleReachable g s) :
+    negReachable g s = some false ∧
+    judgeErr g s = some "NegativeCycle reported but no negative cycle is reachable from the source" ∧
+    judgeFnc g s none false = .ok ∧
+    ∀ seq bfErr, judgeFnc g s (some seq) bfErr = .fail "Some although no negative cycle is reachable from the source" :=
+  ⟨C11W4C.negReachable_complete g hwf s hs hno, C11W4C.judgeErr_conclusive g hwf s hs hno,
+   C11W4C.judgeFnc_none_complete g hwf s hs hno, C11W4C.judgeFnc_some_conclusive g hwf s hs hno⟩
+
+theorem C11_judge_floyd_conclusive_without_neg_cycle (g : MGraph) (hwf : g.WellFormed) (hno : ¬ NegCycle g) :
+    negAnywhere g = some false ∧
+    judgeFwErr g = some "NegativeCycle reported but the graph has no negative cycle" :=
+  ⟨C11W4C.negAnywhere_complete g hwf hno, C11W4C.judgeFwErr_conclusive g hwf hno⟩
+
+/-- consequence: "judge inconclusive" can only be answered when a negative cycle is reachable (then
+`Err` / `Some` would have been the right answer and the reference search failed to certify it) -/
+theorem C11_judge_inconclusive_only_with_neg_cycle (g : MGraph) (hwf : g.WellFormed) (s : Nat) (hs : s ∈ g.nodes)
+    (h : negReachable g s = none) : NegCycleReachable g s := by
+  apply Classical.byContradiction
+  intro hno
+  rw [C11W4C.negReachable_complete g hwf s hs hno] at h
+  cases h
+
+/-- the side without a negative cycle is decided: the checked answer is `some false` exactly then -/
+theorem C11_negReachable_false_iff (g : MGraph) (hwf : g.WellFormed) (s : Nat) (hs : s ∈ g.nodes) :
+    negReachable g s = some false ↔ ¬ NegCycleReachable g s :=
+  C11W4C.negReachable_false_iff g hwf s hs
+
+/-- non-vacuity: a well-formed graph with a negative arc and a zero-cost cycle, no negative cycle -/
+example : C11W4C.exG.WellFormed ∧ 0 ∈ C11W4C.exG.nodes ∧ ¬ NegCycleReachable C11W4C.exG 0 := by
+  refine ⟨by unfold MGraph.WellFormed; decide, by decide, ?_⟩
+  exact (C11_negReachable_false_iff _ (by unfold MGraph.WellFormed; decide) 0 (by decide)).1
+    (by set_option maxRecDepth 100000 in decide)
 
 end PetgraphModel.C11T
